@@ -41,7 +41,7 @@ from fractions import Fraction
 import numpy as np
 from hypothesis import strategies as st
 
-from vp.pbt import SubCheck
+from vp.pbt import SubCheck, represent
 
 PROPERTY = "C09"
 RULE = ("matrix: a similarity matrix (values k/8, dyadic k/2^16, decimals "
@@ -332,7 +332,8 @@ def check_density(rec, net, st_, rho, non_local, A, tag=""):
 
 def prepare(rec, case):
     """-> (grid, S, State) or None."""
-    S = sim_matrix(case)
+    # memory order / strides / float32 of the caller's matrix vary with it
+    S = represent(sim_matrix(case))
     ok, grid = rec.call("grid", make_grid, case)
     if not ok:
         return None
